@@ -43,7 +43,7 @@ BUILTIN_NAMES = {
     "getattr", "setattr", "object", "sum", "any", "all", "enumerate", "zip", "abs", "print", "sorted", "dict", "set",
     "frozenset", "divmod", "cast",
     # primitives for trusted model code (stubs)
-    "nondet_bool", "nondet_int", "nondet_bytes", "nondet_obj", "nondet_real", "assume", "require", "raise_any", "ghost_event", "seq_of", "filter",
+    "nondet_bool", "nondet_int", "nondet_bytes", "nondet_obj", "nondet_real", "assume", "require", "raise_any", "ghost_event", "seq_of", "filter", "cancel_point", "suspend_point",
 }
 
 
@@ -82,6 +82,7 @@ class Obligation:
     note: str = ""
     status: str = "pending"
     backend: str = ""
+    trace: tuple = ()
     time_s: float = 0.0
     detail: str = ""
 
@@ -156,6 +157,7 @@ class EngineCore:
         self.paths_explored = 0
         self._feas_cache: dict = {}
         self._ident_count: dict[str, int] = {}
+        self.top_ctx = None
         self.created_shapes: list = []  # (object, Shape) pairs whose invariant is assumed at function entry
         self.module_frames: dict[str, Ref] = {}
         self.max_depth = 40
@@ -175,7 +177,7 @@ class EngineCore:
             self.obligations.append(Obligation(ident, self.cur_fn_key, kind, line, [], z3.BoolVal(True), tuple(tags), note, status="trivial"))
             return
         ident = f"{base}#{n}"
-        self.obligations.append(Obligation(ident, self.cur_fn_key, kind, line, list(st.pc), goal, tuple(tags), note))
+        self.obligations.append(Obligation(ident, self.cur_fn_key, kind, line, list(st.pc), goal, tuple(tags), note, trace=tuple(st.trace[-16:])))
 
     def feasible(self, st: State, extra=None) -> bool:
         """False only when the path condition is definitely unsatisfiable (checked without the lemma axioms)."""
@@ -183,6 +185,7 @@ class EngineCore:
             return True
         s = z3.Solver()
         s.set("rlimit", 400000)
+        s.set("timeout", 1500)
         s.add(*st.pc)
         if extra is not None:
             s.add(extra)
@@ -202,6 +205,7 @@ class EngineCore:
                 return False
             s = z3.Solver()
             s.set("rlimit", 200000)
+            s.set("timeout", 800)
             s.add(*st.pc)
             s.add(z3.Not(c))
             return s.check() == z3.unsat
@@ -401,6 +405,37 @@ class EngineCore:
 
     def raise_py(self, st: State, pycls: type, *args) -> Raise:
         return Raise(self.make_exc(st, PyClass(pycls), tuple(args)))
+
+    # --- lazily split exception classes: an exception object may stand for "one of these classes" ($clsset in the
+    # heap, per state); a path is split only where a handler / issubclass test actually discriminates.
+    def make_exc_any(self, st: State, classes: list) -> Ref:
+        classes = list(classes)
+        exc = self.make_exc(st, classes[0], ())
+        if len(classes) > 1:
+            st.heap[exc.oid]["$clsset"] = tuple(classes)
+        return exc
+
+    def exc_classes(self, st: State, exc: Ref) -> tuple:
+        cs = st.heap[exc.oid].get("$clsset")
+        return cs if cs else (META[exc.oid].cls,)
+
+    def exc_class_name(self, st: State, exc: Ref) -> str:
+        cs = self.exc_classes(st, exc)
+        names = [c.cls.__name__ if isinstance(c, PyClass) else c.ci.name for c in cs]
+        return names[0] if len(names) == 1 else "one-of(" + ",".join(names[:4]) + (",..." if len(names) > 4 else "") + ")"
+
+    def split_exc(self, st: State, exc: Ref, other: Any) -> list[tuple[State, bool]]:
+        """Partition the candidate classes of `exc` by `issubclass(., other)`; returns [(state, is_subclass)]."""
+        cs = self.exc_classes(st, exc)
+        yes = tuple(c for c in cs if self.is_subclass(c, other))
+        no = tuple(c for c in cs if not self.is_subclass(c, other))
+        out = []
+        if yes and no:
+            s2 = st.clone()
+            st.heap[exc.oid]["$clsset"] = yes
+            s2.heap[exc.oid]["$clsset"] = no
+            return [(st, True), (s2, False)]
+        return [(st, bool(yes))]
 
     def class_of(self, v: Any) -> Any:
         if isinstance(v, Ref):
